@@ -88,6 +88,10 @@ func (p *resultsPrinter) PrintResults(matchingNodes *list.List) error {
 		matchingNodes = context.MatchingNodes
 	}
 
+	// in sequence mode every call prints the results of one more document: they are set apart from
+	// what was printed before even when they are new nodes that do not say where they come from (keys, map)
+	startsNewDocument := !p.firstTimePrinting
+
 	if p.firstTimePrinting {
 		node := matchingNodes.Front().Value.(*CandidateNode)
 		p.previousDocIndex = node.GetDocument()
@@ -110,7 +114,7 @@ func (p *resultsPrinter) PrintResults(matchingNodes *list.List) error {
 		commentsStartWithSepExp := regexp.MustCompile(`^(\s*(#[^\n]*)?\n)*\$yqDocSeparator\$`)
 		commentStartsWithSeparator := commentsStartWithSepExp.MatchString(mappedDoc.LeadingContent)
 
-		if (p.previousDocIndex != mappedDoc.GetDocument() || p.previousFileIndex != mappedDoc.GetFileIndex()) && !commentStartsWithSeparator {
+		if (p.previousDocIndex != mappedDoc.GetDocument() || p.previousFileIndex != mappedDoc.GetFileIndex() || startsNewDocument) && !commentStartsWithSeparator {
 			if err := p.encoder.PrintDocumentSeparator(writer); err != nil {
 				return err
 			}
@@ -148,6 +152,7 @@ func (p *resultsPrinter) PrintResults(matchingNodes *list.List) error {
 
 		p.previousDocIndex = mappedDoc.GetDocument()
 		p.previousFileIndex = mappedDoc.GetFileIndex()
+		startsNewDocument = false
 		if err := writer.Flush(); err != nil {
 			return err
 		}
